@@ -39,7 +39,8 @@ SCOPE = (
     "of binary sequences of every length T=2..Tmax (quick Tmax=6, thorough Tmax=8; includes 0-3 "
     "events, simultaneous events, events at both ends), each under 7 ES settings (taumax in "
     "{inf,0,1,3/2,2}, lag in {-1,0,1/2,1}) and 9 ECA settings (taumax in {0,1/2,1,3/2,2,3}, lag in "
-    "{0,1/2,1}), on the index path (no timestamps) and on a non-uniform dyadic timestamp vector, "
+    "{0,1/2,1}), on the index path (no timestamps) and on a non-uniform dyadic timestamp vector (at "
+    "T=8 the timestamp path on every second setting per pair), "
     "plus the 2-column event_series_analysis matrix and the internal window variants. Relations: "
     "range [0,1], exchange of the sequences, time shift (zero padding / timestamp offset), time "
     "rescaling (unbounded window for ES; jointly rescaled taumax/lag otherwise). Seeded random: pairs "
@@ -91,8 +92,22 @@ def nonuniform_ts(T):
     return t
 
 
+UNIT = 8   # every timestamp, lag and window used by this harness is a multiple of 1/8
+
+
+def fx(v):
+    """Exact fixed-point numerator of a dyadic rational (None stays None)."""
+    if v is None:
+        return None
+    w = F(v) * UNIT
+    if w.denominator != 1:
+        raise ValueError("not a multiple of 1/%d: %r" % (UNIT, v))
+    return int(w)
+
+
 def ev_times(x, ts):
-    return [(ts[k] if ts is not None else F(k)) for k in range(len(x)) if x[k]]
+    """Event times as integers in units of 1/UNIT."""
+    return [(fx(ts[k]) if ts is not None else UNIT * k) for k in range(len(x)) if x[k]]
 
 
 def ts_arr(ts):
@@ -158,7 +173,7 @@ def check_es_pair(rep, x, y, ts, taumax, lag, relations=True, matrix=True):
     tx, ty = ev_times(x, ts), ev_times(y, ts)
     tsa = ts_arr(ts)
     W = lambda **e: pair_wit(x, y, ts, taumax, lag, method="ES", **e)  # noqa: E731
-    spec = S.es_values(tx, ty, taumax, lag)
+    spec = S.es_values(tx, ty, fx(taumax), fx(lag))
     rep.case()
     res, exc = call(E.event_synchronization, x, y, ts1=tsa, ts2=tsa, taumax=fl(taumax), lag=float(lag))
     if exc is not None:
@@ -233,7 +248,12 @@ def check_eca_pair(rep, x, y, ts, taumax, lag, relations=True, matrix=True):
     tx, ty = ev_times(x, ts), ev_times(y, ts)
     tsa = ts_arr(ts)
     W = lambda **e: pair_wit(x, y, ts, taumax, lag, method="ECA", **e)  # noqa: E731
-    spec = S.eca_rates(tx, ty, taumax, lag)
+    spec = S.eca_rates(tx, ty, fx(taumax), fx(lag))
+    # entry (x|y), (y|x) of each window variant: 'advanced' is the precursor rate, 'retarded' the
+    # trigger rate (same definitions, evaluated once), 'symmetric' its own rule
+    spec_w = {"advanced": (spec[0], spec[2]), "retarded": (spec[1], spec[3]),
+              "symmetric": (S.eca_window(tx, ty, fx(taumax), fx(lag), "symmetric"),
+                            S.eca_window(ty, tx, fx(taumax), fx(lag), "symmetric"))}
     empty = (not tx) or (not ty)
     rep.case()
     res, exc = call(E.event_coincidence_analysis, x, y, fl(taumax), ts1=tsa, ts2=tsa, lag=float(lag))
@@ -291,7 +311,7 @@ def check_eca_pair(rep, x, y, ts, taumax, lag, relations=True, matrix=True):
     obj = cfg_object(taumax, lag)
     for w in WINDOWS:
         rep.case()
-        sw = (S.eca_window(tx, ty, taumax, lag, w), S.eca_window(ty, tx, taumax, lag, w))
+        sw = spec_w[w]
         r5, exc = call(obj._eca_coincidence_rate, x, y, window_type=w, ts1=tsa, ts2=tsa)
         if exc is not None:
             rep.fail("_eca_coincidence_rate/raises", W(window=w), repr(exc))
@@ -313,7 +333,7 @@ def check_eca_pair(rep, x, y, ts, taumax, lag, relations=True, matrix=True):
                 if exc is None:
                     D, exc = call(o2.event_series_analysis, method="ECA", symmetrization="directed",
                                   window_type=ww)
-                sw = (S.eca_window(tx, ty, taumax, lag, ww), S.eca_window(ty, tx, taumax, lag, ww))
+                sw = spec_w[ww]
                 if exc is not None:
                     rep.fail("event_series_analysis/eca-pair", W(window=ww), repr(exc))
                 elif not (agree(D[0, 1], sw[0], TOL_ECA) and agree(D[1, 0], sw[1], TOL_ECA)):
@@ -368,7 +388,7 @@ def check_matrix(rep, Em, ts, taumax, lag):
         bad = []
         for i in range(N):
             for j in range(i + 1, N):
-                sp = S.es_values(cols[i], cols[j], taumax, lag)
+                sp = S.es_values(cols[i], cols[j], fx(taumax), fx(lag))
                 defined = defined or sp is not None
                 sp = (None, None) if sp is None else sp
                 if not (agree(D[i, j], sp[0], TOL_ES) and agree(D[j, i], sp[1], TOL_ES)):
@@ -400,7 +420,7 @@ def check_matrix(rep, Em, ts, taumax, lag):
                 for j in range(N):
                     if i == j:
                         continue
-                    sp = S.eca_window(cols[i], cols[j], taumax, lag, w)
+                    sp = S.eca_window(cols[i], cols[j], fx(taumax), fx(lag), w)
                     defined = defined or sp is not None
                     if not agree(D[i, j], sp, TOL_ECA):
                         bad.append((i, j, D[i, j], sp))
@@ -541,15 +561,15 @@ def check_escn(rep, obs, method, taumax, lag, sym, window, thr):
                 continue
             if method == "ES":
                 lo, hi = min(i, j), max(i, j)
-                c = S.es_counts(cols[lo], cols[hi], taumax, lag)
+                c = S.es_counts(cols[lo], cols[hi], fx(taumax), fx(lag))
                 if c is None:
                     a = b = None
                 else:
                     a, b = (c[0], c[1]) if i < j else (c[1], c[0])
                     scale = math.sqrt(c[2])
             else:
-                a = S.eca_window(cols[i], cols[j], taumax, lag, window)
-                b = S.eca_window(cols[j], cols[i], taumax, lag, window)
+                a = S.eca_window(cols[i], cols[j], fx(taumax), fx(lag), window)
+                b = S.eca_window(cols[j], cols[i], fx(taumax), fx(lag), window)
                 scale = 1.0
             if a is None or (sym != "directed" and b is None):
                 # undefined operand: similarity nan/0 in the directed case, otherwise not asserted;
@@ -595,10 +615,14 @@ def job_pairs(rep, T, lo, hi):
             nt_es = nt_eca = False
             for ci, (tm, lag) in enumerate(ES_CFGS):
                 for pi, ts in enumerate((None, tsn)):
+                    if pi and T >= 8 and (xb + yb + ci) % 2:
+                        continue      # longest length: timestamp path on every second setting
                     rot = (xb + 3 * yb + ci + pi) % 4 == 0
                     nt_es |= check_es_pair(rep, x, y, ts, tm, lag, relations=rot, matrix=rot)
             for ci, (tm, lag) in enumerate(ECA_CFGS):
                 for pi, ts in enumerate((None, tsn)):
+                    if pi and T >= 8 and (xb + yb + ci) % 2:
+                        continue      # longest length: timestamp path on every second setting
                     rot = (xb + 3 * yb + ci + pi) % 4 == 0
                     nt_eca |= check_eca_pair(rep, x, y, ts, tm, lag, relations=rot,
                                              matrix="rotate" if rot else False)
